@@ -14,6 +14,10 @@ fn run_case(case: &Value) -> Result<String, String> {
         "cpc_union_ops" => Ok(crate::c06::replay(case)),
         "cpc_union_two_orders" => Ok(format!("a:\n{}b:\n{}", crate::c06::replay(&case["a"]), crate::c06::replay(&case["b"]))),
         "bytes" => Ok(crate::c14::replay(case)),
+        "cm_ops" => Ok(crate::cmm::replay(case)),
+        "cm_confidence" => Ok(crate::c08::replay_confidence(case)),
+        "bloom_ops" => Ok(crate::bloomm::replay(case)),
+        "bloom_fpp" | "bloom_builder" => Ok(crate::c09::replay_e3(case)),
         "hll_two_orders" => {
             let lg_k = case["lg_k"].clone();
             let start: Vec<Value> = case["start"].as_array().cloned().unwrap_or_default();
